@@ -6,7 +6,7 @@ that runs it on an initiator and a responder session fed with the values the two
 """
 from bumble import smp
 from bumble.core import PhysicalTransport
-from pyvc.contracts import (Any, Bool, Bytes, Callback, Const, Inst, Int, IntRange, OneOf, Opt, contract, iff, implies,
+from pyvc.contracts import (Any, Bool, Bytes, Callback, Const, Inst, Int, IntRange, OneOf, Opaque, Opt, contract, iff, implies,
                             lemma, model)
 from spec import smp as S
 
@@ -140,4 +140,150 @@ lemma(
     requires=lambda si, sr: [si.is_initiator, not sr.is_initiator, si.sc == sr.sc,
                              si.connection.transport == PhysicalTransport.LE, sr.connection.transport == PhysicalTransport.LE],
     inline=['Session.decide_pairing_method', 'Session.auth_req', 'AuthReq.from_booleans'],
+)
+
+
+# ---------------------------------------------------------------------------
+# L2: honest authentication flag.  Session.on_pairing builds the PairingKeys that Manager.on_pairing stores;
+# the recording stub of Manager.on_pairing checks every key it is handed (ghost assert = obligation at the call).
+# ---------------------------------------------------------------------------
+from bumble import keys as _keys  # noqa: E402
+
+MITM_PROTECTED = (PM.PASSKEY, PM.NUMERIC_COMPARISON, PM.OOB)  # statement: "passkey, numeric comparison, OOB"
+
+
+def honest(key, method):
+    """a stored key is marked authenticated only when a MITM-protected model was actually used"""
+    return key is None or not key.authenticated or method in MITM_PROTECTED
+
+
+def all_keys_honest(keys, method):
+    return [
+        honest(keys.ltk, method),
+        honest(keys.ltk_central, method),
+        honest(keys.ltk_peripheral, method),
+        honest(keys.irk, method),
+        honest(keys.csrk, method),
+        honest(keys.link_key, method),
+    ]
+
+
+def mgr_on_pairing(ghost, session, identity_address, keys):
+    hon = all_keys_honest(keys, session.pairing_method)
+    assert hon[0] and hon[1] and hon[2] and hon[3] and hon[4] and hon[5], 'stored-key-authenticated-only-if-mitm-protected'
+    ghost.stored = ghost.stored + 1
+    ghost.keys = keys
+    ghost.address = identity_address
+
+
+def mgr_on_pairing_failure(ghost, session, reason):
+    ghost.failed = ghost.failed + 1
+
+
+def fut_done(ghost):
+    return ghost.result_done
+
+
+def fut_set_result(ghost, value):
+    assert not ghost.result_done  # asyncio raises InvalidStateError otherwise
+    ghost.result_done = True
+    ghost.result_ok = True
+
+
+def fut_set_exception(ghost, error):
+    assert not ghost.result_done
+    ghost.result_done = True
+    ghost.result_ok = False
+
+
+model('ghost:Future', fields={}, methods={
+    'done': Callback('done', effect=fut_done),
+    'set_result': Callback('set_result', effect=fut_set_result),
+    'set_exception': Callback('set_exception', effect=fut_set_exception),
+})
+model('ghost:Manager#p', fields={}, methods={
+    'on_pairing': Callback('on_pairing', effect=mgr_on_pairing, is_async=True),
+    'on_pairing_failure': Callback('on_pairing_failure', effect=mgr_on_pairing_failure),
+})
+model('bumble.hci:Address#p', fields=dict(address_type=IntRange(0, 3)))
+ADDRESS = Inst('bumble.hci:Address#p')
+model('ghost:Link#p', fields=dict(transport=OneOf(PhysicalTransport.LE, PhysicalTransport.BR_EDR), peer_address=ADDRESS))
+model('bumble.keys:PairingKeys.Key', fields=dict(value=Bytes, authenticated=Bool, ediv=Opt(Int), rand=Opt(Bytes)))
+KEY = Inst('bumble.keys:PairingKeys.Key')
+model('bumble.keys:PairingKeys', fields=dict(address_type=Opt(Int), ltk=Opt(KEY), ltk_central=Opt(KEY), ltk_peripheral=Opt(KEY), irk=Opt(KEY),
+                                            csrk=Opt(KEY), link_key=Opt(KEY), link_key_type=Opt(Int)))
+KEYS = Inst('bumble.keys:PairingKeys')
+# EDIV / Rand are only copied by on_pairing (never inspected): opaque values compared by identity, so that "None or a
+# value" costs no case split here; the reconnection lemma (L4) uses typed ones
+model(
+    'bumble.smp:Session#p',
+    fields=dict(
+        manager=Inst('ghost:Manager#p'), connection=Inst('ghost:Link#p'), completed=Bool, pairing_result=OneOf(None, Inst('ghost:Future')),
+        peer_bd_addr=OneOf(None, ADDRESS), ctkd_task=OneOf(None, Opaque('task')), pairing_method=IntRange(0, 4), sc=Bool, is_initiator=Bool,
+        ltk=Bytes, ltk_ediv=Opaque('ediv'), ltk_rand=Opaque('rand'), peer_ltk=OneOf(None, Bytes), peer_ediv=Opaque('ediv'), peer_rand=Opaque('rand'),
+        peer_identity_resolving_key=OneOf(None, Bytes), peer_signature_key=OneOf(None, Bytes), link_key=OneOf(None, Bytes),
+    ),
+)
+SESSION_P = Inst('bumble.smp:Session#p')
+P_GHOST = dict(stored=Int, failed=Int, keys=Const(None), address=Const(None), result_done=Bool, result_ok=Bool)
+
+
+def key_is(key, value, ediv, rand):
+    return key is not None and key.value == value and key.ediv is ediv and key.rand is rand
+
+
+def other_key_is(key, value):
+    """irk / csrk / link key: stored iff received, with the received value"""
+    return (key is None) if value is None else (key is not None and key.value == value)
+
+
+def stored_keys_post(k, self, address):
+    """what the PairingKeys handed to the store hold"""
+    if k is None:
+        return [False, False, False, False, False, False]
+    legacy_le = not self.sc and self.connection.transport == PhysicalTransport.LE
+    peer_value = self.peer_ltk if self.peer_ltk else b''
+    hon = all_keys_honest(k, self.pairing_method)
+    return [
+        hon[0] and hon[1] and hon[2] and hon[3] and hon[4] and hon[5],
+        # Secure Connections / CTKD: one LTK; legacy: the key this device distributed and the key the peer distributed,
+        # each with its EDIV/Rand, one in each of the two role slots
+        implies(not legacy_le, key_is(k.ltk, self.ltk, None, None) and k.ltk_central is None and k.ltk_peripheral is None),
+        implies(
+            legacy_le,
+            k.ltk is None
+            and (
+                (key_is(k.ltk_central, self.ltk, self.ltk_ediv, self.ltk_rand) and key_is(k.ltk_peripheral, peer_value, self.peer_ediv, self.peer_rand))
+                or (key_is(k.ltk_central, peer_value, self.peer_ediv, self.peer_rand) and key_is(k.ltk_peripheral, self.ltk, self.ltk_ediv, self.ltk_rand))
+            ),
+        ),
+        other_key_is(k.irk, self.peer_identity_resolving_key) and other_key_is(k.csrk, self.peer_signature_key) and other_key_is(k.link_key, self.link_key),
+        address is (self.peer_bd_addr if self.peer_bd_addr is not None else self.connection.peer_address),
+        k.address_type == address.address_type,
+    ]
+
+
+def on_pairing_post(self, old, ghost):
+    first = not old.self.completed
+    return [
+        self.completed,
+        # the keys go to the store exactly once per session (a second completion, or a completion after a failure, stores nothing)
+        ghost.stored == old.ghost.stored + (1 if first else 0),
+        ghost.failed == old.ghost.failed,
+        implies(first and self.pairing_result is not None, ghost.result_done and (old.ghost.result_done or ghost.result_ok)),
+        implies(not first, ghost.keys is old.ghost.keys),
+    ] + [implies(first, c) for c in stored_keys_post(ghost.keys, self, ghost.address)]
+
+
+contract(
+    'bumble.smp:Session.on_pairing',
+    prop='C13',
+    params=dict(self=SESSION_P),
+    ghost=P_GHOST,
+    ensures=on_pairing_post,
+    ensures_names=['completed', 'stored-once', 'no-failure-report', 'initiator-future-resolved', 'nothing-stored-again',
+                   'authenticated-only-if-mitm-protected', 'sc-single-ltk', 'legacy-own-and-peer-ltk', 'other-keys-iff-received',
+                   'filed-under-identity-address', 'address-type'],
+    modifies=['self.completed', 'self.ctkd_task', 'ghost.stored', 'ghost.keys', 'ghost.address', 'ghost.result_done', 'ghost.result_ok'],
+    inline=['PairingKeys.__init__', 'PairingKeys.Key.__init__'],
 )
